@@ -2,6 +2,7 @@ package main
 
 import (
 	"bytes"
+	"golang.org/x/crypto/nacl/secretbox"
 
 	"github.com/ucan-wg/go-ucan/pkg/command"
 	"github.com/ucan-wg/go-ucan/pkg/meta"
@@ -29,8 +30,14 @@ func genMeta(c *Ctx) {
 	}{{"good", good}, {"nil", nil}, {"empty", []byte{}}, {"short", good[:31]}, {"long", append(append([]byte{}, good...), 1)},
 		{"zero", make([]byte, 32)}, {"sixteen", good[:16]}}
 	for _, n := range sizes {
-		for variant := 0; variant < 2; variant++ { // 0: []byte value, 1: string value
+		for variant := 0; variant < 3; variant++ { // 0: []byte value, 1: string value (text), 2: string value holding arbitrary bytes
 			pt := c.R.Bytes(n)
+			if variant == 2 && n > 0 {
+				pt[0] = 0xff // not valid UTF-8
+				if n > 2 {
+					pt[n-1] = 0xc3 // a truncated sequence at the end
+				}
+			}
 			if variant == 1 {
 				for i := range pt {
 					pt[i] = "abcdefghijklmnopqrstuvwxyz0123456789"[int(pt[i])%36]
@@ -40,7 +47,7 @@ func genMeta(c *Ctx) {
 				obs := safe(func() W {
 					m := meta.NewMeta()
 					var err error
-					if variant == 1 {
+					if variant >= 1 {
 						err = m.AddEncrypted("secret", string(pt), kc.key)
 					} else {
 						err = m.AddEncrypted("secret", pt, kc.key)
@@ -50,14 +57,31 @@ func genMeta(c *Ctx) {
 						m2 := meta.NewMeta()
 						_ = m2.AddEncrypted("secret", pt, good)
 						_, derr := m2.GetEncryptedBytes("secret", kc.key)
-						return WList(WBool(false), WInt(0), WBool(derr != nil))
+						refused := derr != nil
+						// also for a box that really was sealed under that key by someone else (possible for a 32-byte key)
+						if len(kc.key) == 32 {
+							var k32 [32]byte
+							var nonce [24]byte
+							copy(k32[:], kc.key)
+							copy(nonce[:], c.R.Bytes(24))
+							ext := secretbox.Seal(nonce[:], pt, &nonce, &k32)
+							m5 := meta.NewMeta()
+							_ = m5.Add("secret", ext)
+							if _, err := m5.GetEncryptedBytes("secret", kc.key); err == nil {
+								refused = false
+							}
+							if _, err := m5.GetEncryptedString("secret", kc.key); err == nil {
+								refused = false
+							}
+						}
+						return WList(WBool(false), WInt(0), WBool(refused))
 					}
 					stored, _ := m.GetBytes("secret")
 					get := func(mm interface {
 						GetEncryptedBytes(string, []byte) ([]byte, error)
 						GetEncryptedString(string, []byte) (string, error)
 					}, k []byte) ([]byte, error) {
-						if variant == 1 {
+						if variant >= 1 {
 							s, err := mm.GetEncryptedString("secret", k)
 							return []byte(s), err
 						}
@@ -109,13 +133,13 @@ func genMeta(c *Ctx) {
 						var tk token.Token
 						var err error
 						if ty == "dlg" {
-							if variant == 1 {
+							if variant >= 1 {
 								tk, err = delegation.New(iss.did, iss.did, command.Command("/"), nil, delegation.WithEncryptedMetaString("secret", string(pt), kc.key))
 							} else {
 								tk, err = delegation.New(iss.did, iss.did, command.Command("/"), nil, delegation.WithEncryptedMetaBytes("secret", pt, kc.key))
 							}
 						} else {
-							if variant == 1 {
+							if variant >= 1 {
 								tk, err = invocation.New(iss.did, iss.did, command.Command("/"), nil, invocation.WithEncryptedMetaString("secret", string(pt), kc.key))
 							} else {
 								tk, err = invocation.New(iss.did, iss.did, command.Command("/"), nil, invocation.WithEncryptedMetaBytes("secret", pt, kc.key))
